@@ -348,6 +348,18 @@ def gen_spec(rng, big):
     return {'params': params, 'cfg': cfg}
 
 
+def edit_cfg(rng, spec):
+    """the configuration of another run of the same module class: entries dropped, added, changed"""
+    cfg = {}
+    for p in spec['params']:
+        r = rng.random()
+        if p['name'] in spec['cfg'] and r < 0.3:
+            cfg[p['name']] = spec['cfg'][p['name']]
+        elif r < 0.6:
+            cfg[p['name']] = gen_val(rng, p['dt'])
+    return cfg
+
+
 _classes = {}
 
 
@@ -558,6 +570,32 @@ def restart(spec, target, tmp):
             rec['persistent'] = {n: bool(getattr(p, 'persistent', False)) for n, p in m.parameters.items()}
             rec['auto'] = {n: getattr(p, 'persistent', False) == 'auto' for n, p in m.parameters.items()}
             rec['module'] = m
+        return rec
+    finally:
+        bench.close()
+
+
+def reload_from(spec, content):
+    """a running module (started without file) finds `content` in its file when it calls loadParameters()"""
+    bench = Bench()
+    try:
+        m, exc = bench.create(spec)
+        if m is None:
+            return None
+        before = values_of(m)
+        bench.fs.set_state(content, None)
+        bench.fs.reset(None)
+        m.wlog = []
+        exc = None
+        try:
+            m.loadParameters()
+        except Exception as e:  # pylint: disable=broad-except
+            exc = type(e).__name__
+        except RecursionError:
+            exc = 'RecursionError'
+        rec = step_record(bench, m, exc)
+        rec['before'] = before
+        rec['module'] = m
         return rec
     finally:
         bench.close()
@@ -870,6 +908,13 @@ def check_case(ctx, res, spec, case, quick_crash=3, kind='history'):
             tags.append(('crash-restore', ('step', i)))
             res.traces += 1
             res.count('crash.restart')
+    # ---- reloads (loadParameters() in the running module): restored values, and where they come from
+    for i, rec in enumerate(steps):
+        if i > 0 and case['acts'][i - 1]['a'] == 'load':
+            reqs.append(reload_request(ref, rec['pre'][0], [r['values'] for r in steps[:i]], rec['values'], tables))
+            tags.append(('reload', ('step', i)))
+            res.traces += 1
+            res.count('reload.after-start' if i == 1 else 'reload.later')
     # ---- start-up precedence of the first creation
     reqs.append(start_request(spec, ref, case.get('file'), first['values'], tables))
     tags.append(('start', None))
@@ -915,6 +960,20 @@ def check_case(ctx, res, spec, case, quick_crash=3, kind='history'):
         elif tag == 'start' and a['bad']:
             res.violations.append({'sig': 'C17:startup-precedence', 'what': f'start-up values of {a["bad"]} are not cfg > stored > default',
                                    'case': full})
+        elif tag == 'reload':
+            rec = steps[where[1]]
+            if a['thisrun']:
+                n = a['thisrun'][0]
+                res.violations.append({'sig': 'C17:reload-resurrects-overridden-value',
+                                       'what': f'loadParameters() at step {where[1]} gave {a["thisrun"]} a value the parameter never had in '
+                                               f'this run ({n}: {dict(map(tuple, rec["values"]))[n]}, held so far '
+                                               f'{sorted(set(dict(map(tuple, r["values"]))[n] for r in steps[:where[1]]))}; given in the '
+                                               f'configuration: {sorted(spec["cfg"])}): a value stored by an earlier run overrides what '
+                                               f'start-up decided', 'case': dict(full, where=where)})
+            if a['restores']:
+                res.violations.append({'sig': 'C17:reload-not-restored',
+                                       'what': f'loadParameters() at step {where[1]} did not restore {a["restores"]} to the usable stored '
+                                               f'value', 'case': dict(full, where=where)})
     # ---- statistics
     nsaves = sum(1 for r in steps if r['evs'])
     faulted = sum(1 for r in steps if any(e[-1] == 'FAULT' for e in r['evs']))
@@ -928,6 +987,16 @@ def check_case(ctx, res, spec, case, quick_crash=3, kind='history'):
         res.samples.append({'kind': kind, 'params': [[p['name'], p['dt'], p['flag']] for p in spec['params']], 'acts': case['acts'],
                             'ops_per_step': [len(r['evs']) for r in steps]})
     return impl
+
+
+def reload_request(ref, file, history_values, actual_values, tables):
+    """one call of loadParameters(): `file` = content of the file when it was called, `history_values` = the value
+    lists at the end of start-up and after every action before the call"""
+    actual = dict(map(tuple, actual_values))
+    hist = [dict(map(tuple, v)) for v in history_values]
+    obs = [{'name': n, 'persistent': ref['persistent'][n], 'hasWrite': ref['hasWrite'][n], 'before': hist[-1][n],
+            'held': [h[n] for h in hist], 'actual': actual[n]} for n, _ in ref['values']]
+    return {'p': 'C17', 'k': 'judge_reload', 'tables': tables, 'file': hexo(file), 'obs': obs}
 
 
 def start_request(spec, ref, filehex, actual_values, tables):
@@ -1013,14 +1082,23 @@ def check_corruptions(ctx, res, spec, big):
     results = []
     for label, content in cors:
         r = restart(spec, content, None)
-        results.append((label, content, r))
+        # the same content met by loadParameters() of a running module
+        rl = reload_from(spec, content) if (big or label.split(':')[0] not in ('truncate', 'bitflip') or rng.random() < 0.3) else None
+        results.append((label, content, r, rl))
         tb.add_file(content)
-        if r['values'] is not None:
-            for n, p in r['module'].parameters.items():
-                tb.add_val(n, p.value)
+        for x in (r, rl):
+            if x is not None and x['values'] is not None:
+                for n, p in x['module'].parameters.items():
+                    tb.add_val(n, p.value)
     tables = tb.close()
     reqs, meta = [], []
-    for label, content, r in results:
+    for label, content, r, rl in results:
+        if rl is not None:
+            # only the restoring clause applies: the content is foreign to this run by construction
+            reqs.append(reload_request(ref, content, [rl['before']], rl['values'], tables))
+            meta.append(('reload', {'kind': 'corrupt', 'spec': spec, 'content': content.hex(), 'label': label}, rl))
+            res.traces += 1
+            res.count('corrupt.reload' + ('.raised' if rl['exc'] else ''))
         res.evaluations += 1
         res.count('corrupt.' + label.split(':')[0])
         full = {'kind': 'corrupt', 'spec': spec, 'content': content.hex(), 'label': label}
@@ -1052,6 +1130,10 @@ def check_corruptions(ctx, res, spec, big):
             res.violations.append({'sig': 'C17:startup-precedence',
                                    'what': f'start-up from a corrupted file ({full["label"]}): values of {a["bad"]} are not '
                                            f'cfg > usable stored > default', 'case': full})
+        elif tag == 'reload' and a['restores']:
+            res.violations.append({'sig': 'C17:reload-not-restored',
+                                   'what': f'loadParameters() on a damaged file ({full["label"]}) did not restore {a["restores"]} to the '
+                                           f'usable stored value' + (f' (it raised {r["exc"]})' if r['exc'] else ''), 'case': full})
         elif tag == 'snap' and a['bad'] is not None:
             res.violations.append({'sig': 'C17:file-partial-or-foreign', 'what': 'start-up save left a partial file', 'case': full})
         elif tag == 'litter' and not a['ok']:
@@ -1092,10 +1174,22 @@ def check_single_corruption(ctx, res, c):
     for n, p in list(ref['module'].parameters.items()) + list(r['module'].parameters.items()):
         tb.add_val(n, p.value)
     tb.add_file(content)
-    a = ctx.driver.batch([start_request(spec, ref, c['content'], r['values'], tb.close())])[0]
-    res.traces += 1
-    if a.get('bad'):
-        res.violations.append({'sig': 'C17:startup-precedence', 'what': f'values of {a["bad"]} are not cfg > usable stored > default', 'case': c})
+    rl = reload_from(spec, content)
+    if rl is not None and rl['values'] is not None:
+        for n, p in rl['module'].parameters.items():
+            tb.add_val(n, p.value)
+    tables = tb.close()
+    reqs = [start_request(spec, ref, c['content'], r['values'], tables)]
+    if rl is not None:
+        reqs.append(reload_request(ref, content, [rl['before']], rl['values'], tables))
+    ans = ctx.driver.batch(reqs)
+    res.traces += len(reqs)
+    if ans[0].get('bad'):
+        res.violations.append({'sig': 'C17:startup-precedence', 'what': f'values of {ans[0]["bad"]} are not cfg > usable stored > default', 'case': c})
+    if rl is not None and ans[1].get('restores'):
+        res.violations.append({'sig': 'C17:reload-not-restored',
+                               'what': f'loadParameters() on a damaged file did not restore {ans[1]["restores"]} to the usable stored value'
+                                       + (f' (it raised {rl["exc"]})' if rl['exc'] else ''), 'case': c})
     return r
 
 
@@ -1115,14 +1209,24 @@ def run(ctx):
     for _ in range(ctx.budget(110, 400)):
         spec = gen_spec(rng, big)
         case = gen_case(rng, spec, big)
-        if rng.random() < 0.3:
-            # start from a file written for (possibly) other values, or a damaged one
-            prev = run_impl(spec, gen_case(rng, spec, False), trials=False)
+        if rng.random() < 0.4:
+            # start from a file written by an earlier run for (possibly) other values, or a damaged one; the configuration
+            # may have been edited between the two runs (values added, removed, changed)
+            prev_spec = spec
+            if rng.random() < 0.6:
+                prev_spec = dict(spec, cfg=edit_cfg(rng, spec))
+                res.count('file.from-run-with-other-cfg')
+            else:
+                res.count('file.from-run-with-same-cfg')
+            prev = run_impl(prev_spec, gen_case(rng, prev_spec, False), trials=False)
             t = prev['steps'][-1]['target']
             if t is not None:
                 if rng.random() < 0.3 and len(t) > 2:
                     t = t[:rng.randrange(len(t))]
                 case['file'] = t.hex()
+                if rng.random() < 0.5:
+                    # the documented reaction to a power cycle found at the first poll: reload right after start-up
+                    case['acts'].insert(rng.choice([0, 0, 1]), {'a': 'load'})
         check_case(ctx, res, spec, case, quick_crash=None if big else 4)
     for _ in range(ctx.budget(12, 40)):
         check_corruptions(ctx, res, gen_spec(rng, False), big)
